@@ -239,6 +239,7 @@ class Circuit:
             raise ModeRangeError("Circuit to add is outside of mode range")
 
         # Include any existing internal modes into the circuit to be added
+        empty_modes = []
         for i in sorted(self.__internal_modes):
             # Need to account for shifts when adding new heralds
             target_mode = i - mode
@@ -247,9 +248,11 @@ class Circuit:
                     target_mode += 1
             if 0 <= target_mode < circuit.n_modes:
                 spec = circuit._add_empty_mode(spec, target_mode)
+                empty_modes.append(target_mode)
         # Then add new modes for heralds from circuit and also add swaps to
-        # enforce that the input and output herald are on the same mode
-        provisional_swaps = {}
+        # enforce that the input and output herald are on the same mode. Any
+        # empty modes added above should not be moved by these swaps.
+        provisional_swaps = {m: m for m in empty_modes}
         for m in sorted(circuit.heralds["input"]):
             self.__circuit_spec = self._add_empty_mode(
                 self.__circuit_spec, mode + m
